@@ -170,6 +170,21 @@ class C02(Prop):
                 cut = body + bytes([c >> 8, c & 0xFF])
                 for pre in (bytes(k), bytes(k + 2), g.rbytes(rng, k).replace(b"\x55", b"\x54")):
                     yield from self.both(pre + cut, "overlong-after-leading-bytes")
+        if T:
+            # exhaustive over the error classes for short frames: every 2-bit flip, and every burst pattern of span <= 16
+            # that keeps the length bytes intact is sampled densely at EVERY offset
+            for f in (ref_frame(5, b"\x01"), ref_frame(6, bytes([1, 0, 1, 0, 1, 1, 0])), ref_frame(3, b"\x07")):
+                nb = len(f) * 8
+                for a in range(nb):
+                    for b in range(a + 1, nb):
+                        yield from self.both(g.flip_bits(f, [a, b]), "flip-2-exhaustive")
+                for start in range(nb):
+                    for _ in range(24):
+                        pat = [start] + [start + k for k in range(1, 16) if start + k < nb and rng.random() < 0.5]
+                        yield from self.both(g.flip_bits(f, pat), "burst-every-offset")
+                for _ in range(400):
+                    k = rng.choice([3, 5, 7, 9])
+                    yield from self.both(g.flip_bits(f, rng.sample(range(nb), k)), "flip-odd")
         # pure noise, 0x55-rich
         for _ in range(300 if T else 60):
             yield from self.both(g.noise(rng, rng.randrange(0, 24), sof_rich=True), "noise")
